@@ -59,4 +59,5 @@ def features(stream, case, out):
 
 def nontrivial(stream, case, out):
     return ep.nontrivial(stream, case, [_run_line(case, out)])
+
 valid_case = ep.valid_case
